@@ -2,6 +2,7 @@
 use crate::rng::Rng;
 use std::io::Write;
 
+pub mod calendar;
 pub mod duration;
 pub mod epoch;
 
@@ -20,6 +21,8 @@ pub fn inputs(prop: &str, r: &mut Rng, n: usize, tier: &str, out: &mut dyn Write
         "C02" => duration::inputs_c02(r, n, tier, out),
         "C03" => duration::inputs_c03(r, n, tier, out),
         "C14" => duration::inputs_c14(r, n, tier, out),
+        "C08" => calendar::inputs_c08(r, n, tier, out),
+        "C09" => calendar::inputs_c09(r, n, tier, out),
         "C04" => epoch::inputs_c04(r, n, tier, out),
         "C05" => epoch::inputs_c05(r, n, tier, out),
         "C06" => epoch::inputs_c06(r, n, tier, out),
@@ -40,10 +43,14 @@ pub fn exec(op: &str, args: &[&str]) -> Option<String> {
     if let Some(r) = epoch::exec(op, args) {
         return Some(r);
     }
+    if let Some(r) = calendar::exec(op, args) {
+        return Some(r);
+    }
     None
 }
 
 /// Extra constants contributed by the property modules.
 pub fn dump_consts(m: &mut serde_json::Map<String, serde_json::Value>) {
     epoch::dump_consts(m);
+    calendar::dump_consts(m);
 }
